@@ -35,7 +35,7 @@ KERNELS = {
     "remaining-deposit-capacity": ({"name": "get_remaining_deposit_capacity", "crate": "marginfi"},
                                    ["phi(Result::Ok{0}|Result::Ok{%s}|Result::Ok{checked_to_num(checked_floor(checked_sub(checked_sub(phi(p1.config.deposit_limit|scale_drift_deposit_limit(p1.config.deposit_limit,p1.mint_decimals)),get_asset_amount(p1,p1.total_asset_shares)),%s)))})" % (U64MAX, ONE)],
                                    "capacity = floor(limit - deposits - 1); 0 when full; u64::MAX when unlimited"),
-    "pre-fee-amount": ({"name": "calculate_pre_fee_amount", "crate": "marginfi"}, ["phi(Option::Some{0}|Option::Some{p2}|checked_add(p1.maximum_fee,p2)|ok(ceil_div(checked_mul(10000,p2),checked_sub(10000,p1.transfer_fee_basis_points))))"],
+    "pre-fee-amount": ({"name": "calculate_pre_fee_amount", "crate": "marginfi"}, ["phi(Option::Some{0}|Option::Some{p2}|ceil_div(checked_mul(10000,p2),checked_sub(10000,p1.transfer_fee_basis_points))|checked_add(p1.maximum_fee,p2))"],
                        "gross-up: ceil(post * 10000 / (10000 - bps)), capped by the maximum fee"),
     "post-fee-deposit": ({"name": "calculate_post_fee_spl_deposit_amount", "crate": "marginfi"}, ["phi(Result::Ok{checked_sub(p2,phi(0|calculate_epoch_fee(get_extension(unpack(try_borrow_data(p1))),p3,p2)))}|Result::Ok{p2})"],
                          "received = sent - Token-2022 epoch fee (sent for plain SPL mints)"),
